@@ -15,6 +15,7 @@ Deciding monitors
       identity, protocol sanity.
 """
 import asyncio
+import itertools
 import os
 import sys
 import threading
@@ -28,7 +29,7 @@ LEVEL = "fault_enumeration"
 SHARDS = {"quick": 4, "thorough": 16}
 SHARD_TIMEOUT = {"quick": 900, "thorough": 3400}
 REQUIRED = ["wsgi-rendezvous", "wsgi-yield-injection", "asgi-virtual-time", "cleanup-exactly-once", "no-leaked-thread", "no-pending-task",
-            "delivered-prefix", "bounded-return", "deadlock-analysis-armed", "producer-steps-after-close", "queued-relay"]
+            "delivered-prefix", "bounded-return", "deadlock-analysis-armed", "producer-steps-after-close", "queued-relay", "busy-producer", "asgi-fault-combinations"]
 RULE = ("WSGI SendEventResponse rendezvous scenarios: producer length n in 0..4 x close point k (before first next, after item 1..n, after exhaustion) x producer state at "
         "close {exhausted, mid-step then yields / returns / raises, ahead (item ready, relay blocked in put)} x ping {20 ms, never}; WSGI yield-injection scenarios: random "
         "n<=4, close point, producer delays 0-3 ms, producer raising, ping 2 ms / never, LINE-event pauses p=0.4; WSGI StreamResponse early close; ASGI StreamResponse and "
@@ -126,7 +127,7 @@ def ids_of(chunks):
 
 
 # =====================================================================================  WSGI rendezvous
-def rendezvous(ctx, n, k, state, then, ping, empties=False):
+def rendezvous(ctx, n, k, state, then, ping, empties=False, producer="generator"):
     """n items; the consumer reads k items, then closes. state of producer/relay at close:
     'exhausted' | 'midstep' (producer inside its step; then: yield/return/raise once its gate opens) | 'ahead' (next item ready, relay blocked in put)
     k = -1: close before the first next(); k = n+1: read to the end, then close."""
@@ -134,7 +135,8 @@ def rendezvous(ctx, n, k, state, then, ping, empties=False):
     pool, prefix = new_pool()
     gate = threading.Event()
     marks = {"cleanup": 0, "entered": 0, "yielded": []}
-    case = {"n": n, "close_after": k, "state": state, "then": then, "ping": ping, "field_less_events": empties}
+    case = {"n": n, "close_after": k, "state": state, "then": then, "ping": ping, "field_less_events": empties, "producer": producer}
+    marks["obj_closed"] = 0
 
     def gen():
         marks["entered"] += 1
@@ -159,7 +161,15 @@ def rendezvous(ctx, n, k, state, then, ping, empties=False):
             if then == "cleanup-raises":
                 raise KeyError("producer")  # the producer's own cleanup fails
 
-    resp = wsgi.SendEventResponse(gen(), ping_interval=ping)
+    class IterableObject:
+        """a producer that is an iterable OBJECT with its own close() (PEP 3333 style); iter() hands out a fresh generator"""
+        def __iter__(self):
+            return gen()
+
+        def close(self):
+            marks["obj_closed"] += 1
+
+    resp = wsgi.SendEventResponse(gen() if producer == "generator" else IterableObject(), ping_interval=ping)
     it = iter(resp(drivers.to_environ(drivers.Req()), lambda s, h, e=None: None))
     got, res = [], {}
 
@@ -216,8 +226,12 @@ def rendezvous(ctx, n, k, state, then, ping, empties=False):
     if leaked:
         probs.append(("relay-thread-still-in-push-after-return", repr(leaked)))
     ctx.mon("cleanup-exactly-once")
-    if marks["entered"] and marks["cleanup"] != 1:
-        probs.append((f"cleanup-ran-{marks['cleanup']}-times", ""))
+    if producer == "generator":
+        if marks["entered"] and marks["cleanup"] != 1:
+            probs.append((f"cleanup-ran-{marks['cleanup']}-times", ""))
+    elif marks["entered"] and marks["obj_closed"] != 1:
+        # (the generator handed out by iter() is not judged here: an exception's traceback may keep it alive)
+        probs.append((f"iterable-object-close-called-{marks['obj_closed']}-times", ""))
     ctx.mon("delivered-prefix")
     try:
         ids = ids_of(got)
@@ -516,7 +530,15 @@ class PlainAsyncIterable:
         return self.make(self.i - 1)
 
 
-def asgi_scenario(ctx, cls_name, n_items, item_delay, send_delay, t_disc, ping, raise_at, agen, empties=0):
+class StarvationGuard(BaseException):
+    pass
+
+
+def asgi_scenario(ctx, cls_name, n_items, item_delay, send_delay, t_disc, ping, raise_at, agen, empties=0,
+                  cleanup_raises=False, send_fail_at=None, busy=False):
+    """busy: an endless producer that never awaits between its yields (like the class docstring's example) against a
+    client that takes send_delay per event; cleanup_raises: the producer's own cleanup raises; send_fail_at: the
+    server's n-th body send() raises OSError (client gone without an http.disconnect message)."""
     from baize import asgi
     cls = getattr(asgi, cls_name)
     loop = drivers.VLoop(max_iterations=200_000)
@@ -527,10 +549,16 @@ def asgi_scenario(ctx, cls_name, n_items, item_delay, send_delay, t_disc, ping, 
     def make(i):
         return {"data": str(i), "id": str(i)} if sse else b"%d;" % i
 
+    BUSY_CAP = 5000
+    steps = [0]
+
     async def gen():
         started.append(1)
         try:
-            for i in range(n_items):
+            for i in (itertools.count() if busy else range(n_items)):
+                steps[0] += 1
+                if busy and steps[0] > BUSY_CAP:
+                    raise StarvationGuard()  # the relay pulled thousands of items while the client took a handful
                 for _ in range(empties):  # zero-length keep-alive chunks / field-less events, each a producer step of its own
                     if item_delay:
                         await asyncio.sleep(item_delay)
@@ -543,6 +571,10 @@ def asgi_scenario(ctx, cls_name, n_items, item_delay, send_delay, t_disc, ping, 
                 yield make(i)
         finally:
             cleanup.append(loop.time())
+            if cleanup_raises:
+                raise RuntimeError("producer cleanup failed")
+
+    nbody = [0]
 
     async def receive():
         if t_disc is None:
@@ -554,6 +586,10 @@ def asgi_scenario(ctx, cls_name, n_items, item_delay, send_delay, t_disc, ping, 
     async def send(m):
         if send_delay:
             await asyncio.sleep(send_delay)
+        if m["type"] == "http.response.body":
+            if send_fail_at is not None and nbody[0] >= send_fail_at:
+                raise OSError("verif: injected send failure")
+            nbody[0] += 1
         log.append((m["type"][14:], m.get("body", b""), m.get("more_body"), loop.time()))
 
     async def main():
@@ -600,7 +636,8 @@ def asgi_scenario(ctx, cls_name, n_items, item_delay, send_delay, t_disc, ping, 
             pass
         loop.close()
     case = {"class": "asgi." + cls_name, "n": n_items, "producer_delay": item_delay, "send_delay": send_delay, "disconnect_at": t_disc, "ping": ping,
-            "raise_at": raise_at, "async_generator": agen, "empty_chunks_before_each_item": empties}
+            "raise_at": raise_at, "async_generator": agen, "empty_chunks_before_each_item": empties,
+            "cleanup_raises": cleanup_raises, "send_fail_at": send_fail_at, "busy_endless_producer": busy}
     ctx.mon("asgi-virtual-time")
     fam = "asgi-sse" if sse else "asgi-stream"
     if stuck:
@@ -633,8 +670,18 @@ def asgi_scenario(ctx, cls_name, n_items, item_delay, send_delay, t_disc, ping, 
         will_raise = raise_at <= n_items
     if agen:
         will_raise = raise_at is not None and raise_at < n_items
-    if exc is not None and not (isinstance(exc, KeyError) and will_raise):
+    if busy:
+        ctx.mon("busy-producer")
+        if steps[0] > BUSY_CAP or isinstance(exc, StarvationGuard):
+            ctx.violation(f"{fam}|producer-pulled-{BUSY_CAP}-steps-ahead-of-a-slow-client", case,
+                          f"{steps[0]} producer steps, {len([x for x in log if x[0] == 'body'])} body events taken by the client")
+            return ("starved",), True
+    tolerated = (isinstance(exc, KeyError) and will_raise) or (send_fail_at is not None and isinstance(exc, OSError) and "injected" in str(exc)) \
+        or (cleanup_raises and isinstance(exc, RuntimeError) and "producer cleanup failed" in str(exc))
+    if exc is not None and not tolerated:
         ctx.violation(f"{fam}|unexpected-exception-{type(exc).__name__}", case, repr(exc))
+    if send_fail_at is not None or cleanup_raises:
+        return ("faulty",), True  # order / more_body of a sequence cut short by a fault is C05's business
     if will_raise and exc is None and t_disc is None:
         ctx.violation(f"{fam}|producer-exception-swallowed", case, "")
     kinds = [x[0] for x in log if x[0] != "disc"]
@@ -678,10 +725,27 @@ def run(ctx):
                                 sig, nt = asgi_scenario(ctx, cls, n_items, idl, sdl, td, 1.0, raise_at, agen)
                                 sigs.add((cls, sig))
                                 ctx.case_enum(nt)
+                                if agen and n_items and raise_at is None and (idx // 6) % 4 == 0:
+                                    # faults in combination: the send fails (client gone without a disconnect message) and/or the producer's cleanup raises
+                                    for cr, sf in ((True, None), (False, rng.randrange(0, n_items + 1)), (True, rng.randrange(0, n_items + 1))):
+                                        sig, nt = asgi_scenario(ctx, cls, n_items, idl, sdl, td, 1.0, None, True, cleanup_raises=cr, send_fail_at=sf)
+                                        ctx.mon("asgi-fault-combinations")
+                                        ctx.case_enum(True)
                                 if agen and n_items and idl and idx % 8 == 1:
                                     sig, nt = asgi_scenario(ctx, cls, n_items, idl, sdl, td, 1.0, raise_at, True, empties=3)
                                     sigs.add((cls, sig))
                                     ctx.case_enum(nt)
+    # an endless producer that never awaits, a client that needs time per event, a disconnect (or none but a failing send)
+    if ctx.shard == 0:
+        for cls in ("SendEventResponse", "StreamResponse"):
+            for sdl in (0.5, 0.01):
+                for td in (0.0, 1.001, 2.5):
+                    asgi_scenario(ctx, cls, 0, 0, sdl, td, 1.0, None, True, busy=True)
+                    ctx.case_enum(True)
+                asgi_scenario(ctx, cls, 0, 0, sdl, None, 1.0, None, True, busy=True, send_fail_at=3)
+                ctx.case_enum(True)
+    else:
+        ctx.mon("busy-producer", 0)
     ctx.extra["asgi_distinct_event_order_signatures"] = len(sigs)
     ctx.sample("asgi-grid", {"class": "asgi.SendEventResponse", "n": 3, "producer_delay": 1.5, "send_delay": 0.5, "disconnect_at": 1.001, "ping": 1.0, "raise_at": None})
     # ---------------- WSGI StreamResponse
@@ -718,6 +782,9 @@ def run(ctx):
     for n, k in ((2, 1), (3, 1), (3, 2), (2, 3), (3, 0)):
         scen += [(n, k, "exhausted" if k > n else "ahead", "yield", 5, True), (n, min(k, n - 1), "midstep", "yield", 5, True),
                  (n, min(k, n - 1), "midstep", "cleanup-raises", 5), (n, min(k, n - 1), "ahead", "cleanup-raises", 0.02)]
+    for n, k in ((2, 1), (3, 1), (3, 2), (2, 3), (3, 0), (1, 1)):
+        scen += [(n, k, "exhausted" if k > n else ("ahead" if k < n else "exhausted"), "yield", 5, False, "iterable-object"),
+                 (n, min(k, n - 1), "midstep", rng.choice(["yield", "return", "raise"]), 0.02, False, "iterable-object")]
     for i, sc in enumerate(scen):
         if not ctx.mine(i):
             continue
@@ -754,13 +821,14 @@ def run(ctx):
 def replay(ctx, case):
     if case.get("class", "").startswith("asgi."):
         asgi_scenario(ctx, case["class"][5:], case["n"], case["producer_delay"], case["send_delay"], case["disconnect_at"], case["ping"], case["raise_at"],
-                      case.get("async_generator", True), case.get("empty_chunks_before_each_item", 0))
+                      case.get("async_generator", True), case.get("empty_chunks_before_each_item", 0), case.get("cleanup_raises", False),
+                      case.get("send_fail_at"), case.get("busy_endless_producer", False))
     elif case.get("class") == "wsgi.StreamResponse":
         wsgi_stream_response(ctx, case["n"], case["close_after"], case["raise_at"], case.get("producer", "generator"))
     elif "scenario" in case:
         queued_relay(ctx, case["ping"])
     elif "state" in case:
-        rendezvous(ctx, case["n"], case["close_after"], case["state"], case["then"], case["ping"], case.get("field_less_events", False))
+        rendezvous(ctx, case["n"], case["close_after"], case["state"], case["then"], case["ping"], case.get("field_less_events", False), case.get("producer", "generator"))
     else:
         print("yield-injection scenarios are PRNG/scheduler dependent: best-effort replay by re-running the tier with the recorded VERIF_SEED")
     ctx.case(1)
